@@ -1,6 +1,6 @@
 //! C13: emission of Coq cases for the cells added after the varint codecs (model tie, stricter than the oracle).
 use super::c13_io::Item;
-use super::c13_rd::{Op, Out};
+use super::c13_rd::{Op, Out, WLog};
 use super::Ctx;
 use serde_json::json;
 
@@ -99,5 +99,24 @@ impl Ctx {
         if preset.is_some() { *self.uni_used.entry(preset_cell).or_insert(0) += 1; self.sum.dist("coq_preset_reader_histories"); }
         self.coq2(30 + model_kind, chunk, &ints, data, &Some(out), force);
         let _ = json!(null);
+    }
+    /// A writer history (StreamBufferedWriter op 50 / ZeroCopyWriter op 51): per operation the outcome and the destination
+    /// length the implementation showed, then the destination after into_inner.
+    pub fn coq_writer(&mut self, cell: &str, zc: bool, cap: i128, bulk: i128, chunk: i128, log: &[WLog], dest: &[u8]) {
+        if log.iter().any(|l| l.code < 0) || log.len() > 60 { return; }
+        if log.iter().map(|l| l.data.len()).sum::<usize>() > 6000 { return; }
+        let used = self.uni_used.entry(cell.to_string()).or_insert(0);
+        if *used >= 45 * self.coq_budget / 2400 { return; }
+        *used += 1;
+        let mut ints: Vec<i128> = vec![cap, bulk];
+        let mut obs: Vec<i128> = vec![];
+        for l in log {
+            ints.extend([l.code, l.arg, l.data.len() as i128]);
+            ints.extend(l.data.iter().map(|&b| b as i128));
+            obs.extend([l.out, l.dest]);
+        }
+        obs.extend(dest.iter().map(|&b| b as i128));
+        self.sum.dist("coq_writer_histories");
+        self.coq2(if zc { 51 } else { 50 }, chunk as usize, &ints, &[], &Some(obs), true);
     }
 }
